@@ -83,6 +83,117 @@ def boundary_call(rng, measure):
                 njobs=rng.choice([1, 1, 2]), l_out=None, r_out=None)
 
 
+def skew_call(rng, measure):
+    """Rows of very different sizes related by inclusion (subsets / supersets / overlaps of a few base
+    sets), several rows with equal size TOTALS, threshold taken from the similarity of a random
+    pair: many qualifying pairs with skewed sizes, probed one after another in one chunk."""
+    import math
+    import pandas as pd
+    import py_stringmatching as sm
+    k = rng.randint(8, 14)
+    universe = ['w%02d' % i for i in range(k)]
+    bases = [rng.sample(universe, rng.randint(4, min(10, k))) for _ in range(2)]
+
+    def row():
+        b = rng.choice(bases)
+        r = rng.random()
+        if r < 0.45:
+            toks = rng.sample(b, rng.randint(1, len(b)))
+        elif r < 0.8:
+            toks = list(b) + rng.sample([u for u in universe if u not in b], rng.randint(0, min(3, k - len(b))))
+        else:
+            toks = rng.sample(universe, rng.randint(1, k))
+        rng.shuffle(toks)
+        return ' '.join(toks)
+    lrows = [row() for _ in range(rng.randint(2, 8))]
+    rrows = [row() for _ in range(rng.randint(2, 8))]
+    x = set(rng.choice(lrows).split())
+    y = set(rng.choice(rrows).split())
+    o = len(x & y)
+    a, b = len(x), len(y)
+    if measure == 'OVERLAP':
+        t = max(1, o - rng.choice([0, 0, 1]))
+    else:
+        if o == 0:
+            t = rng.choice([0.2, 0.35, 0.5])
+        elif measure == 'JACCARD':
+            t = o / (a + b - o)
+        elif measure == 'DICE':
+            t = 2.0 * o / (a + b)
+        elif measure == 'COSINE':
+            t = o / (math.sqrt(a) * math.sqrt(b))
+        else:
+            t = o / min(a, b)
+        t = min(1.0, gens.ulp_shift(t, rng.choice([0, 0, -1, -3])))
+        if rng.random() < 0.4:
+            t = math.floor(t * rng.choice([10, 20, 100])) / rng.choice([10, 20, 100]) or t
+        t = min(max(t, 0.05), 1.0)
+    L = pd.DataFrame({'id': range(1, len(lrows) + 1), 's': pd.Series(lrows, dtype=object)})
+    R = pd.DataFrame({'id': range(1, len(rrows) + 1), 's': pd.Series(rrows, dtype=object)})
+    return dict(measure=measure, kind='ws', tok=sm.WhitespaceTokenizer(return_set=rng.random() < 0.7), L=L, R=R,
+                names=('id', 's', 'id', 's'), t=t, tcls='skew', op=rng.choice(['>=', '>=', '>=', '>', '=']),
+                allow_empty=True, allow_missing=False, with_score=True,
+                njobs=rng.choice([1, 1, 1, 2]), l_out=None, r_out=None)
+
+
+def ed_family_call(rng):
+    """Edit-distance tables whose strings share rare stems and differ in a frequent repeated tail
+    and by a few edits: many strings with the SAME rarest q-grams but different lengths."""
+    import pandas as pd
+    kind = rng.choice(['qgram2', 'qgram3', 'qgram2np'])
+    kind, tok = T.make_tokenizer(rng, kind)
+    stems = rng.sample(['zqk', 'xq-', 'wv', 'Jy', 'b#c', 'qq'], rng.randint(1, 3))
+    tailch = rng.choice('a0e')
+
+    def s_():
+        base = rng.choice(stems) + tailch * rng.randint(0, 6)
+        r = list(base)
+        for _ in range(rng.choice([0, 0, 1, 1, 2])):
+            op = rng.choice('ids')
+            pos = rng.randint(0, len(r))
+            if op == 'i':
+                r.insert(pos, rng.choice(tailch + 'z'))
+            elif op == 'd' and r:
+                del r[min(pos, len(r) - 1)]
+            elif op == 's' and r:
+                r[min(pos, len(r) - 1)] = rng.choice(tailch + 'z')
+        return ''.join(r)
+    lrows = [s_() for _ in range(rng.randint(2, 8))]
+    rrows = [s_() for _ in range(rng.randint(2, 8))]
+    L = pd.DataFrame({'id': range(1, len(lrows) + 1), 's': pd.Series(lrows, dtype=object)})
+    R = pd.DataFrame({'id': range(1, len(rrows) + 1), 's': pd.Series(rrows, dtype=object)})
+    return dict(measure='EDIT_DISTANCE', kind=kind, tok=tok, L=L, R=R, names=('id', 's', 'id', 's'),
+                t=rng.choice([1, 1, 2, 2, 3, 1.5]), tcls='ed-family', op=rng.choice(['<=', '<=', '<', '=']),
+                allow_empty=True, allow_missing=False, with_score=True, njobs=rng.choice([1, 1, 1, 2]),
+                l_out=None, r_out=None)
+
+
+def empty_call(rng, measure):
+    """Tables salted with values that tokenize to nothing (empty, blanks, delimiter-only, shorter than
+    an unpadded q) on BOTH sides, every operator, thresholds incl. 1.0: the allow_empty logic (C09)."""
+    call = gen_call(rng, measure)
+    if call['measure'] == 'EDIT_DISTANCE':
+        return call
+    kind = call['kind']
+    blanks = {'ws': ['', ' ', '   '], 'delim': ['', ',', ',,'], 'alnum': ['', ' ,; ', '--'], 'qgram2np': ['', 'x', 'y'],
+              'qgram3': [''], 'qgram2': ['']}.get(kind, [''])
+    names = call['names']
+    for df, col in ((call['L'], names[1]), (call['R'], names[3])):
+        if len(df) == 0:
+            continue
+        vals = df[col].tolist()
+        for k in rng.sample(range(len(vals)), rng.randint(1, max(1, len(vals) // 2))):
+            vals[k] = rng.choice(blanks)
+        import pandas as pd
+        df[col] = pd.Series(vals, index=df.index, dtype=object)
+    if call['measure'] != 'OVERLAP':
+        call['t'] = rng.choice([1.0, 1, 0.5, 0.999, call['t']])
+    call['op'] = rng.choice(['>=', '>', '='])
+    call['allow_empty'] = rng.random() < 0.75
+    call['tcls'] = 'empty-salted'
+    return call
+
+
 def run_call(call):
     """Returns (DataFrame | exception instance)."""
     try:
@@ -145,14 +256,21 @@ def is_nontrivial(call, df):
     return nl > 0 and nr > 0 and 0 < len(df) < len(call['L']) * len(call['R'])
 
 
-def run(seed, n, measures=None, boundary_frac=0.3):
+def run(seed, n, measures=None, boundary_frac=0.3, empty_frac=0.08):
     rng = random.Random(seed)
     groups, calls, dfs = [], [], []
     dist = {'measure': {}, 'op': {}, 'njobs': {}, 'tcls': {}, 'rows': {}, 'exceptions': {}}
     for i in range(n):
         m = rng.choice(measures) if measures else None
-        if rng.random() < boundary_frac and (m or 'JACCARD') in ('JACCARD', 'COSINE', 'DICE', 'OVERLAP_COEFFICIENT'):
+        r_ = rng.random()
+        if rng.random() < empty_frac:
+            call = empty_call(rng, m)
+        elif r_ < boundary_frac and (m or 'JACCARD') in ('JACCARD', 'COSINE', 'DICE', 'OVERLAP_COEFFICIENT'):
             call = boundary_call(rng, m or rng.choice(['JACCARD', 'COSINE', 'DICE']))
+        elif r_ < boundary_frac + 0.3 and (m or 'JACCARD') != 'EDIT_DISTANCE':
+            call = skew_call(rng, m or rng.choice(SET_MEASURES))
+        elif r_ < 0.5 and m == 'EDIT_DISTANCE':
+            call = ed_family_call(rng)
         else:
             call = gen_call(rng, m)
         call['rs0'] = call['tok'].get_return_set()
